@@ -107,3 +107,43 @@ def rule_route(ck, only=None):
             got = bytes(r) if isinstance(r, (bytes, bytearray)) else r
             if got != want[1]:
                 ck.violation(where, f"'{text}' produces {got!r}, expected {want[1]!r}", construct=f"route {text}", expected=repr(want[1]), found=repr(got))
+
+
+def rule_block_route(ck):
+    """Statements that are not instructions reach their compilers through Compiler.compile_block: an implicit word list
+    ('1, val, 177777' on a line of its own), a constant, a label - compiled the way a file's body is, with the real methods."""
+    repo = ck.repo
+    I = eager_interp(repo)
+    I.summaries = {"reports::emit_report": emit_report_summary}
+    T = lambda n: I.module_get("types", n)
+    where = "compiler::Compiler.compile_block"
+
+    def thunk():
+        sh = Shapes(I)
+        comp = I.instantiate(I.module_get("compiler", "Compiler"), ["ascii"], {})
+        P = I.module_get("deferred", "Promise")
+        prom = I.instantiate(P, [I.builtin_types["int"], "LA"], {})
+        I.call_method(prom, "settle", [0o1000])
+        state = {"filename": "src/prog.mac", "context": "file", "internal_symbol_prefix": ".internal1.", "local_symbol_prefix": ".local1.", "compiler": comp,
+                 "link_base": {"promise": prom, "set_where": None}, "internal_symbols_list": [], "extern_all": None, "insn": None, "emit_address": 0o1000}
+        stmts = [sh.mk(T("Assignment"), None, None, sh.symbol("val"), sh.number("7", 7), False),
+                 sh.mk(T("WordList"), None, None, [sh.number("1", 1), sh.symbol("val"), sh.number("177777", 0xffff)]),
+                 sh.mk(T("Label"), None, None, "here", False),
+                 sh.mk(T("WordList"), None, None, [sh.symbol("here")])]
+        block = sh.mk(T("CodeBlock"), None, None, stmts)
+        data = I.call_method(comp, "compile_block", [state, block, 0o1000])
+        wait = I.module_get("deferred", "wait")
+        return I.call(wait, [data], {})
+    try:
+        ps = I.explore(thunk)
+    except Unsupported as ex:
+        raise Unknown(f"compile_block on [val = 7 / 1, val, 177777 / here: / here]: {ex}") from None
+    want = b"\x01\x00\x07\x00\xff\xff" + (0o1006).to_bytes(2, "little")
+    ck.instance(("block-route", "word lists"), {"statements": "val = 7 / 1, val, 177777 / here: / here   at 1000", "result": repr(ps[0].value)[:120] if ps else None}, fn=where)
+    if len(ps) != 1 or ps[0].kind != "return":
+        return ck.incomplete(where, "a block of [val = 7 / 1, val, 177777 / here: / here]", ps)
+    got = ps[0].value
+    got = bytes(got) if isinstance(got, (bytes, bytearray)) else getattr(got, "value", got)
+    if ps[0].reported() or got != want:
+        ck.violation(where, f"the statements 'val = 7', '1, val, 177777', 'here:', 'here' assembled at 1000 give {got!r} with diagnostics {[e[2] for e in ps[0].reported()]}; expected {want!r} "
+                            "(implicit word lists: one little-endian word per value, the label is the address after the first list)", construct="block route: implicit word lists", expected=repr(want), found=repr(got))
